@@ -244,7 +244,14 @@ func (g *G) tryPlain(sc *scope, depth int) []string {
 		if !g.cfg.NoBareBlocks && depth > 0 {
 			g.label("bare-block")
 			out := []string{"{"}
-			out = append(out, indentLines(g.stmts(sc, uLocal, 1+g.pick("bbn", 2), depth-1))...)
+			if g.chance("bbwrapper", 40) {
+				// an if without early exit as first statement: goose folds the rest of the block
+				// into that statement's continuation, so the block has a single binding whose
+				// declarations must still end with the block (seeded changes C01-1, C05-2)
+				g.label("bare-block-starting-with-if")
+				out = append(out, "\tif "+g.boolExpr(sc, 1)+" {", "\t}")
+			}
+			out = append(out, indentLines(g.stmts(sc, uLocal, 1+g.pick("bbn", 3), depth-1))...)
 			return append(out, "}")
 		}
 	}
@@ -425,11 +432,14 @@ func (g *G) storeStmt(sc *scope, depth int) []string {
 			})
 		}
 	}
-	for _, v := range g.varsOf(sc, func(v *Var) bool { return v.T.K == KSlice && v.MinLen > 0 }) {
+	g.bigOK = true
+	storeVars := g.varsOf(sc, func(v *Var) bool { return v.T.K == KSlice && v.MinLen > 0 })
+	g.bigOK = false
+	for _, v := range storeVars {
 		v := v
 		alts = append(alts, func() []string {
 			g.label("slice-store")
-			return []string{fmt.Sprintf("%s[%d] = %s", use(v), g.pick("storeidx", v.MinLen), g.expr(sc, v.T.Elem, min(depth, 2)))}
+			return []string{fmt.Sprintf("%s[%s] = %s", use(v), g.idxExpr(sc, "storeidx", v.MinLen), g.expr(sc, v.T.Elem, min(depth, 2)))}
 		})
 	}
 	for _, v := range g.varsOf(sc, func(v *Var) bool { return v.T.K == KMap && v.NonNil }) {
@@ -772,6 +782,27 @@ func (g *G) subsliceStmt(sc *scope) []string {
 	g.label("subslice")
 	var e string
 	n := b - a
+	if !g.inIdx && g.chance("subsldyn", 30) {
+		// dynamic bounds of any unsigned type, kept within the statically known length; the
+		// length of the result is then unknown (0 as lower bound)
+		g.inIdx = true
+		g.label("subslice-dynamic-bound")
+		ty := []*Ty{TU64, TU32, TU8}[g.pick("subsldynty", 3)]
+		if ty.K == KU8 && s.MinLen > 200 {
+			ty = TU32
+		}
+		switch g.pick("subsldynform", 3) {
+		case 0:
+			e = fmt.Sprintf("%s[%d:%d+%s%%%d]", use(s), a, a, paren(g.nonConstOr(sc, TU64, 1)), s.MinLen-a+1)
+		case 1:
+			e = fmt.Sprintf("%s[%s%%%d:]", use(s), paren(g.nonConstOr(sc, ty, 1)), s.MinLen+1)
+		default:
+			e = fmt.Sprintf("%s[:%s%%%d]", use(s), paren(g.nonConstOr(sc, ty, 1)), s.MinLen+1)
+		}
+		g.inIdx = false
+		g.declare(sc, &Var{Name: name, T: s.T, MinLen: 0})
+		return []string{name + " := " + e}
+	}
 	switch g.pick("subslform", 3) {
 	case 0:
 		e = fmt.Sprintf("%s[%d:%d]", use(s), a, b)
